@@ -366,6 +366,8 @@ class Normaliser:
         if isinstance(name, str) and name in ("numpy.ones", "numpy.zeros", "numpy.empty", "numpy.full", "numpy.linspace") and "dtype" in kws \
                 and ast.unparse(kws["dtype"]) in ("np.float64", "numpy.float64", "float", "'float64'", "np.double", "'f8'"):
             kws = {k: v for k, v in kws.items() if k != "dtype"}
+        if isinstance(name, str) and name == "numpy.arange" and "dtype" in kws and ast.unparse(kws["dtype"]) in ("np.int64", "numpy.int64", "int", "np.int_", "'int64'", "np.intp"):
+            kws = {k: v for k, v in kws.items() if k != "dtype"}      # the default for integer arguments
         # keyword spelling of positional parameters: `choice(a=x, size=1)` reads as `choice(x, 1)`, `np.round(v, decimals=p)` as `np.round(v, p)`; for repository
         # callees the parameter order comes from the resolved definition (signature hook), for well-known numpy / Generator calls from a small table
         sig = None
